@@ -33,6 +33,8 @@ def subdivide_segment(p1, p2, num_points, endpoint=True):
         raise TypeError("partition_size should be an int.")
     elif num_points < 2:
         raise ValueError("partition_size should be bigger than 1.")
+    vg.shape.check(locals(), "p1", (-1,))
+    vg.shape.check(locals(), "p2", p1.shape)
 
     return (p2 - p1) * np.linspace(0, 1, num=num_points, endpoint=endpoint)[
         :, np.newaxis
